@@ -86,7 +86,7 @@ func HarnessCLIDeterminism() {
 	zzIn := zzDirs[zzvrt.Choice(len(zzDirs))]
 	zzFilesAt(zzIn)
 	args := []string{zzIn + "/widget.json"}
-	sc := zzvrt.Choice(zzvrt.Param("SCENARIOS", 8))
+	sc := zzvrt.Choice(zzvrt.Param("SCENARIOS", 9))
 	switch sc {
 	case 0: // no mapping, standard output
 	case 1: // one schema, package and output mapped under the same key
@@ -106,6 +106,14 @@ func HarnessCLIDeterminism() {
 	case 5: // two schemas, one default output file
 		args = []string{zzIn + "/gadget.json"}
 		defaultOutput = zzOut + "/all.go"
+	case 8: // an ORDERED option list: two resolve extensions that both apply to the file named on
+		// the command line (its root type name strips the first that fits) and to an extension-less
+		// $ref (the first existing candidate is loaded)
+		resolveExtensions = []string{".json", ".schema.json"}
+		zzvrt.VFileData(zzIn+"/thing.schema.json", `{"$id": "https://example.com/thing", "type": "object", "properties": {"part": {"$ref": "part"}}}`)
+		zzvrt.VFileData(zzIn+"/part.json", `{"$id": "https://example.com/part-a", "type": "object", "properties": {"n": {"type": "integer"}}}`)
+		zzvrt.VFileData(zzIn+"/part.schema.json", `{"$id": "https://example.com/part-b", "type": "object", "properties": {"s": {"type": "string"}}}`)
+		args = []string{zzIn + "/thing.schema.json"}
 	case 7: // two ids with DIFFERENT sets of mapping flags: output only / package and root type only
 		args = []string{zzIn + "/gadget.json"}
 		schemaOutputs = []string{"https://example.com/widget#=" + zzOut + "/w/widget.go"}
